@@ -34,3 +34,73 @@ BSS_DECODE_STUB(carquet_dispatch_byte_split_decode_float, float, 4, 2)
 BSS_DECODE_STUB(carquet_dispatch_byte_split_decode_double, double, 8, 3)
 BSS_ENCODE_STUB(carquet_dispatch_byte_split_encode_float, float, 4, 2)
 BSS_ENCODE_STUB(carquet_dispatch_byte_split_encode_double, double, 8, 3)
+
+/* carquet_rle_decode_all: assumed contract (the RLE family proves the real one) */
+int64_t carquet_rle_decode_all(const uint8_t *input, size_t input_size, int bit_width, uint32_t *output, int64_t max_values) {
+  __CPROVER_precondition(__CPROVER_r_ok(input, input_size), "rle_decode_all: input[0,input_size) readable");
+  __CPROVER_precondition(max_values >= 0 && (uint64_t)max_values <= (UINT64_MAX >> 2), "rle_decode_all: max_values*4 does not overflow");
+  __CPROVER_precondition(__CPROVER_w_ok(output, (size_t)max_values << 2), "rle_decode_all: output[0,max_values) writable");
+  (void)bit_width;
+  int64_t n = nondet_i64();
+  if (n < 0) return -1;
+  __CPROVER_assume(n <= max_values);
+#ifndef CQV_RLE_STUB_FRESH_OUTPUT
+  if (max_values > 0) __CPROVER_havoc_slice(output, (size_t)max_values << 2);
+#else
+  /* The dictionary decoders pass a block they have just malloc'ed: its contents are already arbitrary in CBMC's
+   * memory model, so no havoc is needed (a havoc_slice of up to 2^40 bytes makes CBMC run out of memory when it
+   * prints a counterexample trace). */
+#endif
+  return n;
+}
+
+/* ---- growable buffer (src/core/buffer.c) as recorded calls: the PLAIN encoders' obligation is WHICH bytes they hand to
+ * the buffer; that append/advance store exactly those bytes is the buffer family's contract.  Call number cqv_watch
+ * (ghost, arbitrary) is recorded. ---- */
+#include "core/buffer.h"
+size_t cqv_g;                     /* ghost byte index for memset/advance */
+int cqv_watch;                    /* which call (0-based, over all buffer calls) is recorded */
+int cqv_calls;                    /* number of buffer calls so far */
+int cqv_rec_kind;                 /* 0 none, 1 append, 2 append_u32_le, 3 advance */
+const void *cqv_rec_data; size_t cqv_rec_size; uint32_t cqv_rec_u32; carquet_buffer_t *cqv_rec_buf;
+carquet_status_t cqv_rec_ret; uint8_t *cqv_rec_ptr;
+size_t cqv_total;                 /* total bytes appended by successful calls (wraps never: sizes <= 2^40, calls bounded by harness) */
+
+carquet_status_t carquet_buffer_append(carquet_buffer_t *buf, const void *data, size_t size) {
+  __CPROVER_precondition(buf != NULL, "buffer_append: buf != NULL");
+  __CPROVER_precondition(size == 0 || __CPROVER_r_ok(data, size), "buffer_append: data[0,size) readable");
+  carquet_status_t r = (size == 0 || nondet_bool()) ? CARQUET_OK : CARQUET_ERROR_OUT_OF_MEMORY;
+  if (cqv_calls == cqv_watch) { cqv_rec_kind = 1; cqv_rec_data = data; cqv_rec_size = size; cqv_rec_buf = buf; cqv_rec_ret = r; }
+  cqv_calls++;
+  if (r == CARQUET_OK) cqv_total += size;
+  return r;
+}
+carquet_status_t carquet_buffer_append_u32_le(carquet_buffer_t *buf, uint32_t value) {
+  __CPROVER_precondition(buf != NULL, "buffer_append_u32_le: buf != NULL");
+  carquet_status_t r = nondet_bool() ? CARQUET_OK : CARQUET_ERROR_OUT_OF_MEMORY;
+  if (cqv_calls == cqv_watch) { cqv_rec_kind = 2; cqv_rec_u32 = value; cqv_rec_size = 4; cqv_rec_buf = buf; cqv_rec_ret = r; }
+  cqv_calls++;
+  if (r == CARQUET_OK) cqv_total += 4;
+  return r;
+}
+void *malloc(size_t);
+uint8_t *carquet_buffer_advance(carquet_buffer_t *buf, size_t size) {
+  __CPROVER_precondition(buf != NULL, "buffer_advance: buf != NULL");
+  uint8_t *p = NULL;
+  if (size != 0 && nondet_bool()) { p = malloc(size); __CPROVER_assume(p != NULL); }   /* real code: NULL for size 0 or on failure */
+  if (cqv_calls == cqv_watch) { cqv_rec_kind = 3; cqv_rec_size = size; cqv_rec_buf = buf; cqv_rec_ptr = p; }
+  cqv_calls++;
+  if (p) cqv_total += size;
+  return p;
+}
+#ifdef CQV_OWN_MEMSET
+/* memset with a ghost-index postcondition (job excludes stubs/mem_stubs.c): byte cqv_g of the range equals c */
+void *memset(void *dst, int c, size_t n) {
+  __CPROVER_precondition(__CPROVER_w_ok(dst, n), "memset dst writable");
+  if (n != 0) {
+    __CPROVER_havoc_slice(dst, n);
+    if (cqv_g < n) __CPROVER_assume(((uint8_t *)dst)[cqv_g] == (uint8_t)c);
+  }
+  return dst;
+}
+#endif
